@@ -114,14 +114,12 @@ func (g *Filler) Fill(v reflect.Value, maxlen int) {
 func (g *Filler) sliceLen(maxlen int, cheap bool) int {
 	t := g.T
 	if maxlen > 0 && cheap {
-		lim := 10
+		lim, hit := 10, 0
 		if maxlen > 1024 {
-			lim = 400
-			if !thorough() {
-				lim = 0
-			}
+			// the 65535 limits: a value of 2-4 MB, so rare (rapid favours the ends of a range: the hit sits in the middle)
+			lim, hit = 30, 13
 		}
-		if lim > 0 && rapid.IntRange(0, lim).Draw(t, g.label("atmax")) == 0 {
+		if rapid.IntRange(0, lim).Draw(t, g.label("atmax")) == hit {
 			g.Boundary = true
 			hi := 1
 			if g.MaxOnly {
